@@ -73,6 +73,34 @@ pub fn run(_a: &Args) {
     });
     println!("log={}", log.lock().unwrap().join(","));
     starting(&log2);
+    instant();
+}
+
+/// two subscribers created with `spawn_instant` (their refs exist, and accept messages, before their start-up tasks were polled once) subscribe straight
+/// away; publications before and after they start must reach both, once, in order
+fn instant() {
+    let log = Arc::new(Mutex::new(Vec::new()));
+    let rt = tokio::runtime::Builder::new_current_thread().enable_time().start_paused(true).build().unwrap();
+    rt.block_on(async {
+        let port = OutputPort::<u64>::default();
+        let (a, ha) = ractor::ActorRuntime::spawn_instant(None, Subscriber { who: "x", log: log.clone() }, ()).unwrap();
+        port.subscribe(a.clone(), Some);
+        let (b, hb) = ractor::ActorRuntime::spawn_instant(None, Subscriber { who: "y", log: log.clone() }, ()).unwrap();
+        port.subscribe(b.clone(), Some);
+        port.send(1);
+        port.send(2);
+        settle().await;
+        let _ = ha.await;
+        let _ = hb.await;
+        for v in [3u64, 4, 5] {
+            port.send(v);
+            settle().await;
+        }
+        a.stop(None);
+        b.stop(None);
+        settle().await;
+    });
+    println!("instant={}", log.lock().unwrap().join(","));
 }
 
 struct LateStarter {
